@@ -150,7 +150,9 @@ func zzC10Build(in zzC10Input) (*datadoghqv1alpha1.ExtendedDaemonSetReplicaSet, 
 			NodeSelectorTerms: []corev1.NodeSelectorTerm{{MatchExpressions: []corev1.NodeSelectorRequirement{other}}, {MatchFields: []corev1.NodeSelectorRequirement{other}}}}}}
 	case "term-with-name":
 		rs.Spec.Template.Spec.Affinity = &corev1.Affinity{NodeAffinity: &corev1.NodeAffinity{RequiredDuringSchedulingIgnoredDuringExecution: &corev1.NodeSelector{
-			NodeSelectorTerms: []corev1.NodeSelectorTerm{{MatchFields: []corev1.NodeSelectorRequirement{{Key: "metadata.name", Operator: corev1.NodeSelectorOpIn, Values: []string{"stale"}}}}}}}}
+			// (the term names nodes twice: a stale In left by a copied pod manifest and a NotIn; both have to give way)
+			NodeSelectorTerms: []corev1.NodeSelectorTerm{{MatchFields: []corev1.NodeSelectorRequirement{{Key: "metadata.name", Operator: corev1.NodeSelectorOpIn, Values: []string{"stale"}},
+				{Key: "metadata.name", Operator: corev1.NodeSelectorOpNotIn, Values: []string{"node0", "quarantined"}}}}}}}}
 	case "name-then-plain", "plain-then-name":
 		named := corev1.NodeSelectorTerm{MatchExpressions: []corev1.NodeSelectorRequirement{other},
 			MatchFields: []corev1.NodeSelectorRequirement{{Key: "metadata.name", Operator: corev1.NodeSelectorOpNotIn, Values: []string{"quarantined"}}}}
@@ -228,7 +230,8 @@ func ZZ_C10_create() {
 						nondet.Assert("C10.create.affinity-names-node", f.Operator == corev1.NodeSelectorOpIn && len(f.Values) == 1 && f.Values[0] == "node0")
 					}
 				}
-				nondet.Assert("C10.create.every-term-pinned", found == 1)
+				// (a term may name the node more than once; every by-name requirement of it names node0 — see above)
+				nondet.Assert("C10.create.every-term-pinned", found >= 1)
 			}
 		}
 	} else {
